@@ -1683,3 +1683,61 @@ Proof.
   intros g sid mid aok inp. split; [apply run_session_x_no_end, C|].
   rewrite sess_stream_run_session_x. apply run_session_shape.
 Qed.
+
+(* ---------- a closed gate, store-wide: one damaged side write leaves EVERY announced run open ---------- *)
+(* with the gate closed in every run the store behaves exactly as if every run_ended append failed *)
+Definition never_end (aok : ck -> bool) (k : ck) : bool :=
+  match k with CRunEnded _ _ _ => false | _ => aok k end.
+
+Lemma pre_ck_forall_in sid l : forallb (pre_ck sid) (conts l) = true ->
+  forall e, In e l -> match e with EC k => pre_ck sid k = true | ES _ _ _ => True end.
+Proof.
+  induction l as [|x l IH]; intros F e Hin; [destruct Hin|].
+  assert (Fx : match x with EC k => pre_ck sid k = true | ES _ _ _ => True end /\ forallb (pre_ck sid) (conts l) = true).
+  { destruct x as [s q k|k]; [split; [exact I | exact F]|].
+    rewrite conts_cons_c in F. cbn [forallb] in F. apply andb_true_iff in F. exact F. }
+  destruct Fx as [Fx Fl]. destruct Hin as [<-|Hin]; [exact Fx | exact (IH Fl e Hin)].
+Qed.
+
+Lemma run_body_never_end g sid link aok inp :
+  run_body g sid link (never_end aok) inp = run_body g sid link aok inp.
+Proof.
+  rewrite (run_body_keeps g sid link (never_end aok) inp), (run_body_keeps g sid link aok inp).
+  apply filter_ext_in. intros e Hin.
+  pose proof (pre_ck_forall_in sid _ (run_body_pre_ck g sid link all_ok inp) e Hin) as P.
+  destruct e as [s q k|k]; [reflexivity|]. cbn [keeps]. destruct k; try reflexivity. discriminate.
+Qed.
+
+Lemma run_session_x_closed_as_never_end gate f g sid link aok inp : gate_open gate f = false ->
+  run_session_x gate f g sid link aok inp = run_session g sid link (never_end aok) inp.
+Proof.
+  intros G. unfold run_session_x, run_session. rewrite G, run_body_never_end.
+  destruct link as [mid|]; [|reflexivity]. unfold capp. cbn [never_end]. reflexivity.
+Qed.
+
+Lemma act_events_x_closed gate f aok a :
+  gate_open gate f = false ->
+  act_events_x gate (fun _ => f) aok a = act_events (never_end aok) a.
+Proof.
+  intros G. destruct a as [g mid sid inp | g sid inp | j o]; cbn [act_events_x act_events].
+  - unfold post_message_x, post_message. cbn [never_end].
+    rewrite (run_session_x_closed_as_never_end gate f g sid (Some mid) aok inp G). reflexivity.
+  - apply run_session_x_closed_as_never_end, G.
+  - unfold job, job_run. cbn [never_end]. destruct o; unfold capp; cbn [never_end]; reflexivity.
+Qed.
+
+Theorem gated_store_never_ends gate : gate_unconditional gate = false ->
+  exists w, In w gate /\
+    forall (aok : ck -> bool) (acts : list act) (l : list ev) (g : cfg) (mid sid : N) (inp : input),
+      WfActs acts -> Interleave (map (act_events_x gate (fun _ => side_write_eqb w) aok) acts) l ->
+      In (APost g mid sid inp) acts -> aok (CMessage mid) = true -> aok (CRunSpawned sid mid) = true ->
+      count_ck (is_spawn_of mid) l = 1%nat /\ count_ck (is_end_of sid) l = 0%nat.
+Proof.
+  intros G. destruct (gate_closable gate G) as (w & Hw & C). exists w. split; [exact Hw|].
+  intros aok acts l g mid sid inp W I Ha O1 O2.
+  assert (E : map (act_events_x gate (fun _ => side_write_eqb w) aok) acts = map (act_events (never_end aok)) acts).
+  { apply map_ext. intros a. apply act_events_x_closed, C. }
+  rewrite E in I. split.
+  - apply (one_spawn_per_message (never_end aok) acts l g mid sid inp W I Ha); assumption.
+  - destruct (count_end_general (never_end aok) acts l g mid sid inp W I Ha O1 O2) as [r ->]. reflexivity.
+Qed.
